@@ -238,10 +238,11 @@ func verifyFunc(L *Loaded, fn *ssa.Function, fc *FuncContract) (res *FuncResult)
 	// vacuity guard: requires satisfiable
 	ex.obligs = append(ex.obligs, &Oblig{Name: res.Key + "/cover/requires", Class: "cover", Func: res.Key, Clause: "preconditions are satisfiable", Hyps: st.pc.list(), Cover: true, st: snap, entry: ex.entry})
 	if hasRecover(fn) {
-		ex.assumed["defer-recover in "+res.Key+" skipped (sound only because every panic obligation of the function is discharged)"] = true
-		ex.skipDefer = true
+		ex.recoverMode = true
+		ex.topFrame = fr
 	}
 	outs := ex.runBody(st, fr)
+	outs = append(outs, ex.panicOuts...)
 	res.Returns = len(outs)
 	for _, o := range outs {
 		ex.atReturn(o.st, fr, fc, o.rets)
@@ -271,10 +272,33 @@ func (ex *Exec) atReturn(st *State, fr *Frame, fc *FuncContract, rets []Value) {
 			ex.emit(st, fr, "post", fmt.Sprint(i+1), "ensures "+en.Text, g, en.Props, fn.Pos())
 		}
 	}
+	if fc != nil {
+		for i, ap := range fc.Appends {
+			ex.appendsCheck(st, fr, env, ap, i+1)
+		}
+	}
 	ex.frameCheck(st, fr, fc, env)
 	if fc != nil && len(fc.Own) > 0 {
 		ex.ownCheckAtReturn(st, fr, fc, rets)
 	}
+}
+
+// appendsCheck: the buffer's old contents are a prefix of the new contents and exactly n bytes were added.
+func (ex *Exec) appendsCheck(st *State, fr *Frame, env *Env, ap *AppendClause, k int) {
+	oldSt := &State{heap: ex.entry.Heap, globals: ex.entry.Globals}
+	oenv := env.withState(oldSt)
+	oenv.in = ap.Buf.Text
+	omem, ooff, olen := oenv.bufView(oenv.eval(ap.Buf.Expr))
+	nenv := env.withState(st)
+	nenv.in = ap.Buf.Text
+	// the buffer is located through the *entry* state (the pointer itself must not be re-targeted)
+	loc, bt := oenv.bufPtr(oenv.eval(ap.Buf.Expr))
+	nmem, noff, nlen := nenv.bufView(tv{loc, types.NewPointer(bt)})
+	n := ex.evalIntClause(oldSt, oenv, ap.N)
+	ex.emit(st, fr, "frame/appends", fmt.Sprintf("%d/len", k), "appends "+ap.Buf.Text+", "+ap.N.Text+": length grows by exactly n", Eq(nlen, Add(olen, n)), nil, fr.fn.Pos())
+	i := Fresh("appends_i", BV(64))
+	g := Implies(ULt(i, olen), Eq(nmem.Read(Add(noff, i)), omem.Read(Add(ooff, i))))
+	ex.emit(st, fr, "frame/appends", fmt.Sprintf("%d/prefix", k), "appends "+ap.Buf.Text+": old contents are preserved as a prefix", g, nil, fr.fn.Pos())
 }
 
 // ---------- frame ----------
@@ -304,6 +328,15 @@ func (ex *Exec) frameCheck(st *State, fr *Frame, fc *FuncContract, env *Env) {
 			} else if loc.Obj > 0 {
 				allow = append(allow, allowed{loc.Obj, pathKey(loc.Path)})
 			}
+		}
+	}
+	if fc != nil {
+		oldSt := &State{heap: entry, globals: ex.entry.Globals}
+		oenv := env.withState(oldSt)
+		for _, ap := range fc.Appends {
+			oenv.in = ap.Buf.Text
+			loc, _ := oenv.bufPtr(oenv.eval(ap.Buf.Expr))
+			allow = append(allow, allowed{loc.Obj, pathKey(loc.Path)})
 		}
 	}
 	ids := make([]int, 0, len(entry))
